@@ -783,7 +783,7 @@ pub fn cmd_sched_conf(args: &Args) -> J {
         ("cases", J::n(metas.len())),
         ("conforming", J::n(ok)),
         ("complete_runs", J::n(complete)),
-        ("skipped_outside_model (beneficiary read, backing read racing a commit)", J::n(skipped)),
+        ("skipped_beneficiary_read", J::n(skipped)),
         ("model_steps_replayed", J::n(model_steps)),
         ("distinct_traces", J::n(distinct.len())),
         ("n_divergences", J::n(n_div)),
